@@ -32,7 +32,7 @@ def units(tier):
               'Sieve::_extend(unsigned_int).0:%d' % nsq, 'Sieve::_extend(unsigned_int).1:%d' % (seg + 3),
               'Sieve::_extend(unsigned_int).2:%d' % ((max(hi - start0, 0)) // (2 * seg) + 3)]
         ents.append(Entry('h_extend', defines={'N0': n0, 'SEG': seg, 'LMIN': lo, 'LMAX': hi, 'VCAP': vcap, 'SEGCAP': max(seg, 1)},
-                          route='B', timeout=900 if tier == 'quick' else 3000, mem_gb=8, unwindset=uw, unwind=(1 if int(hi ** .5) < start0 else 2), object_bits=12,
+                          route='B', timeout=900 if tier == 'quick' else 3000, mem_gb=(8 if hi <= 300 else 16), unwindset=uw, unwind=(1 if int(hi ** .5) < start0 else 2), object_bits=12,
                           bounds="cached prefix length %d, segment %d bits, limit symbolic in [%d,%d]; loops unwound to their exact maxima (unwinding assertions on)" % (n0, seg, lo, hi)))
     extend = Unit('extend', 'C33', 'contracts/C33/extend.cpp', ext, ents, route='B',
                   trusted=["container stubs contracts/C33/sieve_prelude.h (std::vector<unsigned>, std::valarray<bool>, std::slice, std::min per the standard; "
